@@ -559,7 +559,7 @@ package martian
 // taken out of the registry and the open-connection counter is back where it
 // was; once shutdown has begun no request is read from the connection.
 //@ func (*Proxy).handleLoop
-//@ property C11 C13
+//@ property C11 C13 C15
 //@ requires p != nil && conn != nil && p.conns != nil && lockDepth() == 0
 //@ modifies *, nConnClose(conn), a32(p.connsWg), nRead(), nWrote(), wroteStatus(), sawClosing(), modReqFailed(), upstream(), readOK(), wrotePA(), wErr(), nMITM()
 //@ ensures nConnClose(conn) == old(nConnClose(conn)) + 1
